@@ -146,7 +146,7 @@ func TestC14FaultEnumeration(t *testing.T) {
 		defer db.Close()
 		ctx := context.Background()
 		world := &gen.World{Authors: gen.Pubkeys(2)}
-		cfg := &gen.StoreCfg{World: world, TsBase: 1000, TsSpan: 5, NoNoD: true, NoOpenRefs: true}
+		cfg := &gen.StoreCfg{World: world, TsBase: 1000, TsSpan: 5, NoNoD: true, NoOpenRefs: true, NoManyTags: true}
 		m := model.NewSQLModel()
 		var hist [][]map[string]any
 		nb := rapid.IntRange(0, 4).Draw(t, "prebatches")
